@@ -21,6 +21,9 @@ const crewLock = "crew.Crew.RWMutex"
 
 // reportLockAccesses checks a guarded-by entry: every access of owner.field must hold lock (W for writes).
 func (c *Ctx) reportLockAccesses(rule string, la *lockset.Analysis, pkg, owner, field, lock string, exempt func(f *ssa.Function) string) int {
+	if exempt == nil {
+		exempt = func(*ssa.Function) string { return "" }
+	}
 	accs := la.FieldAccesses(prog.Abs(pkg), owner, field)
 	idx := map[string]int{}
 	for _, a := range accs {
@@ -30,6 +33,13 @@ func (c *Ctx) reportLockAccesses(rule string, la *lockset.Analysis, pkg, owner, 
 		if a.Addr != nil && localFresh(a.Addr.X) {
 			c.R.Discharge(rule, key, c.pos(a.Instr), "field of an object this function has just allocated")
 			continue
+		}
+		if st, isSt := a.Instr.(*ssa.Store); isSt && a.Kind == "assign field" {
+			switch st.Val.(type) {
+			case *ssa.MakeMap, *ssa.MakeSlice:
+				c.R.Discharge(rule, key, c.pos(a.Instr), "initialisation: the field receives a container made here")
+				continue
+			}
 		}
 		if why := exempt(a.Fn); why != "" {
 			c.R.Discharge(rule, key, c.pos(a.Instr), "exempt: "+why)
@@ -119,13 +129,7 @@ func C16(c *Ctx) {
 		})
 	}
 	// ---- R2 lock discipline
-	exempt := func(f *ssa.Function) string {
-		if f.Name() == "NewService" || strings.HasPrefix(f.Name(), "NewService$") {
-			return "constructor: the service is not shared yet"
-		}
-		return ""
-	}
-	n := c.reportLockAccesses("C16-R2", la, "crew", "Crew", "Machines", crewLock, exempt)
+	n := c.reportLockAccesses("C16-R2", la, "crew", "Crew", "Machines", crewLock, nil)
 	if n < 5 {
 		c.R.Break("C16-R2: expected accesses of crew.Crew.Machines, found %d", n)
 	}
